@@ -487,11 +487,11 @@ def open_unit(unit):
     from .. import sched
     from ..scen import CacheScenario
     from . import c05
-    _, programs, init, cap = unit
+    _, programs, init, cap, bound = unit
     part = sched.explore(
         lambda: CacheScenario(programs, c05.INITS[init], 'own',
                               {'disk_min_file_size': 8}),
-        bound=2, por=True, time_cap=cap)
+        bound=bound, por=True, time_cap=cap)
     part['label'] = 'sched/open'
     return part
 
@@ -531,15 +531,17 @@ def main(tier, seed):
             units.append(('bfs', 'fanout', st, depth, seed, cap, ch, 3))
     for w in (('set', 'c', BIG, None, None), ('delete', 'a'),
               ('incr', 'n', 1, 0), ('pop', 'a', 0)):
-        units.append(('open', [[('open',)], [w]], 'file', cap))
+        b = 1 if tier == 'quick' else 2
+        units.append(('open', [[('open',)], [w]], 'file', cap, b))
         units.append(('open', [[('open',), ('len',)], [w, ('len',)]], 'two',
-                      cap))
+                      cap, b))
     units = run.shuffled(units, seed)
     for part in run.pmap(work, units):
         rep.merge(part, part.get('label'))
     rep.bounds = {
         'open': 'a handle being constructed against each of 4 writes by '
-                'another client, all schedules with <= 2 preemptions',
+                'another client, all schedules with <= 1 (quick) / 2 '
+                '(thorough) preemptions',
         'bfs': 'depth %d over %d operations (11 data operations + reopen, '
                'second handle, pickle, close-then-use, 3 forked and 3 '
                'threaded operations) x %d setting sets, Cache and '
